@@ -267,11 +267,25 @@ func execGcs(c Case) string {
 			hd, _ := builder.MakeHeaderForFilter(f, *mkHash(unhx(a[1])))
 			res = append(res, filterObs(f), hx(fh[:]), hx(hd[:]))
 		}
+		// the caller's list has spare capacity (collected with append) and is used again afterwards: the builder
+		// writes to no memory of its caller, and a second call on the same list gives the same filter
+		txs = append(make([]*wire.MsgTx, 0, len(txs)+4), txs...)
+		spare := txs[:cap(txs)]
+		keep := append([]*wire.MsgTx{}, spare...)
 		mf, err := builder.BuildMempoolFilter(txs)
 		if err != nil {
 			res = append(res, gcsErr(err))
 		} else {
 			res = append(res, filterObs(mf))
+		}
+		for i := range spare {
+			if spare[i] != keep[i] {
+				res = append(res, "MEMPOOL-ARGUMENT-WRITTEN")
+				break
+			}
+		}
+		if mf2, err2 := builder.BuildMempoolFilter(txs); (err2 == nil) != (err == nil) || (err == nil && filterObs(mf2) != filterObs(mf)) {
+			res = append(res, "MEMPOOL-SECOND-CALL-DIFFERS")
 		}
 		dk := builder.DeriveKey(&bh)
 		return "EXT " + hx(bh[:]) + " RES " + hx(dk[:]) + " " + strings.Join(res, " ")
@@ -389,6 +403,14 @@ func genC13(r *Rng, tier string, emit func(Case)) {
 		N := r.Pick(0, 1, 2, 3, 17, 100)
 		d := genItems(r, N)
 		e("gcs", "allP", key, itoa(P), u64s(M), d, genQueries(r, d, N))
+	}
+	// degenerate ranges: N*M = 0 as a 64-bit number (M = 0, or N*M wrapping to exactly 2^64): every value reduces to 0,
+	// so every item is reported present by every strategy; and M = 1 (range N)
+	for _, nm := range [][2]uint64{{1, 0}, {2, 0}, {5, 0}, {2, 1 << 63}, {4, 1 << 62}, {16, 1 << 60}, {3, 1}, {1, 1}} {
+		for _, P := range []int{0, 1, 19, 32} {
+			d := genItems(r, int(nm[0]))
+			e("gcs", "modzero", hx(r.Bytes(16)), itoa(P), u64s(nm[1]), d, d+";"+genQueries(r, d, int(nm[0])))
+		}
 	}
 	// tiny sets whose range N*M exceeds 2^P: the first value or a gap can need the maximal unary run floor(N*M/2^P)
 	for i := 0; i < 60; i++ {
@@ -586,6 +608,16 @@ func genC14(r *Rng, tier string, emit func(Case)) {
 		g := &genCtx{r: r}
 		txs := g.genBlock(r.Intn(8), r.Intn(3))
 		e("basic", "block", fmtTxs(txs), hx(r.Bytes(32)))
+		// a non-coinbase transaction (position > 0) that spends the null outpoint 00..00:ffffffff, or an outpoint with
+		// a zero hash and another index: only position 0 is skipped as coinbase
+		if i%10 == 1 && len(txs) >= 1 {
+			odd := wire.NewMsgTx(1)
+			odd.AddTxIn(wire.NewTxIn(&wire.OutPoint{Index: uint32(r.Pick(0xffffffff, 0xffffffff, 0, 1))}, pushOnly(r.Bytes(20))))
+			odd.AddTxIn(wire.NewTxIn(&wire.OutPoint{Hash: *mkHash(r.Bytes(32)), Index: 0xffffffff}, pushOnly(r.Bytes(20))))
+			odd.AddTxOut(wire.NewTxOut(int64(0), p2pkh(r.Bytes(20)), wire.TokenData{}))
+			e("basic", "nulloutpoint", fmtTxs(append(append([]*wire.MsgTx{}, txs...), odd)), hx(r.Bytes(32)))
+			e("basic", "nulloutpoint", fmtTxs(append([]*wire.MsgTx{odd}, txs...)), hx(r.Bytes(32)))
+		}
 	}
 }
 
